@@ -547,4 +547,121 @@ def r15_7(ctx: Ctx) -> RuleResult:
     return rr
 
 
-RULES = [r15_1, r15_2, r15_3, r15_4, r15_5, r15_6, r15_7]
+PATCH_LISTS = (
+    ({"a": {"x": 1}, "b": [1, 2], "c": 0, "d": {"dd": [1]}, "f": {"g": [7]}, "h": [], "i/j": [1, "x"], "k": "keep", "l": [0]},
+     [{"op": "add", "path": "/a/new", "value": {"k": [1]}}, {"op": "remove", "path": "/b/0"}, {"op": "replace", "path": "/c", "value": None},
+      {"op": "move", "from": "/d", "path": "/e"}, {"op": "copy", "from": "/f/g", "path": "/h/-"}, {"op": "test", "path": "/i~1j", "value": [1, "x"]},
+      {"op": "addne", "path": "/k", "value": 1}, {"op": "addne", "path": "/k2", "value": [2]}, {"op": "addap", "path": "/l/9", "value": {"z": 2}},
+      {"op": "addap", "path": "/l/0", "value": 3}, {"op": "add", "path": "/h/0/-", "value": 8}, {"op": "add", "path": "/a/new/k/-", "value": 2}]),
+    ({"list": [], "0": {"1": [0]}},
+     [{"op": "add", "path": "/list/-", "value": []}, {"op": "add", "path": "/list/0/-", "value": {}}, {"op": "copy", "from": "/list", "path": "/0/1/-"},
+      {"op": "move", "from": "/0/1/0", "path": "/list/0/0/m"}, {"op": "replace", "path": "", "value": {"all": [1]}}, {"op": "add", "path": "/all/-", "value": 2}]),
+    # addne on a member whose name starts with the key marker (`#name` is a member like any other when it does not
+    # exist, although `name` does); replace with empty and nested containers that later operations extend; a move onto
+    # itself
+    ({"name": 1, "r": {"e": 0, "n": 0}, "m": [1]},
+     [{"op": "addne", "path": "/#name", "value": "new"}, {"op": "addne", "path": "/~0name", "value": "new2"}, {"op": "replace", "path": "/r/e", "value": []},
+      {"op": "add", "path": "/r/e/-", "value": 1}, {"op": "replace", "path": "/r/n", "value": {"deep": {"er": []}}}, {"op": "add", "path": "/r/n/deep/er/-", "value": 2},
+      {"op": "replace", "path": "/m/0", "value": {}}, {"op": "add", "path": "/m/0/k", "value": 3}, {"op": "move", "from": "/m", "path": "/m"}]),
+    ([1, [2, 3], {"k": None}],
+     [{"op": "test", "path": "/2/k", "value": None}, {"op": "remove", "path": "/1/0"}, {"op": "addap", "path": "/7", "value": "end"}, {"op": "addne", "path": "/2/k", "value": 0},
+      {"op": "copy", "from": "/1", "path": "/1/-"}]),
+)
+
+
+def r15_8(ctx: Ctx) -> RuleResult:
+    """The property itself on covering operation lists, by abstract execution (rules/model.py; exceptions as they run,
+    lists and objects changed in place): a patch built from the JSON form, from the equivalent chain of builder calls
+    and from its own `asdicts()` output prints the same list of dicts - the one it was given, operation names
+    included - and the three have the same effect on the document, which is the one RFC 6902 (and the documented
+    addne / addap) defines; applying does not change the patch or the caller's list; applying the same patch twice to
+    equal documents gives equal results that share no array or object with each other or with the patch."""
+    import copy as _copy
+
+    from sa.peval import UNKNOWN
+
+    from . import rfc6902
+    from .model import RAISES
+    from .model import MObj
+    from .model import Model
+    from .model import _ConstructorRaises
+
+    rr = RuleResult("R15.8", "the three constructions of a patch print and act alike; applying leaves the patch and the caller's list alone (covering samples)", floor=len(PATCH_LISTS) * 6)
+    cls = ctx.repo.require_class("jsonpath.patch.JSONPatch")
+    fn = ctx.repo.find_method(cls, "asdicts")
+    afn = ctx.repo.find_method(cls, "apply")
+    if fn is None or afn is None:
+        raise AnalysisError("R15.8: JSONPatch.asdicts / apply not found")
+    for k, (doc, ops) in enumerate(PATCH_LISTS):
+        label = f"operation list {k + 1} ({', '.join(str(o['op']) for o in ops)})"
+        want = rfc6902.apply_patch(doc, ops)
+        model = Model(ctx, "R15.8")
+        model.whole_bodies = model.auto_construct = model.exact_exceptions = model.heap = True
+        given = _copy.deepcopy(ops)
+        try:
+            from_json = model.new("jsonpath.patch.JSONPatch", given)
+            built = model.new("jsonpath.patch.JSONPatch")
+        except _ConstructorRaises:
+            rr.bad(afn, afn.node, f"{label}: a patch cannot be built from the JSON form ({model.last_raised})", construct=f"list {k + 1}: JSONPatch(ops) raises")
+            continue
+        chained: object = built
+        for o in ops:
+            kw_ = {("from_" if a == "from" else a): _copy.deepcopy(v) for a, v in o.items() if a != "op"}
+            chained = model.call(chained, str(o["op"]), [], kw_) if isinstance(chained, MObj) else UNKNOWN
+            if chained is RAISES:
+                break
+        if not isinstance(chained, MObj):
+            rr.bad(afn, afn.node, f"{label}: the chain of builder calls " + ("raises " + str(model.last_raised) if chained is RAISES else "does not return the patch"),
+                   construct=f"list {k + 1}: builder chain")
+            continue
+        printed = model.call(from_json, "asdicts", [])
+        printed_built = model.call(chained, "asdicts", [])
+        if not isinstance(printed, list) or not isinstance(printed_built, list) or not rfc6902_known(printed) or not rfc6902_known(printed_built):
+            raise AnalysisError(f"R15.8: what asdicts() returns for {label} cannot be determined")
+        try:
+            again = model.new("jsonpath.patch.JSONPatch", _copy.deepcopy(printed))
+        except _ConstructorRaises:
+            rr.bad(fn, fn.node, f"{label}: the patch cannot be loaded from its own asdicts() output ({model.last_raised})", construct=f"list {k + 1}: JSONPatch(asdicts()) raises")
+            continue
+        printed_again = model.call(again, "asdicts", [])
+        for what, got in (("the JSON form", printed), ("the builder calls", printed_built), ("its own asdicts() output", printed_again)):
+            if got == ops and all(type(a) is type(b) for a, b in zip(got, ops)):
+                rr.ok(fn.loc(), f"{label}: built from {what}, it prints the list it was given")
+            else:
+                diff = next((i for i, (a, b) in enumerate(zip(got if isinstance(got, list) else [], ops)) if a != b), None)
+                rr.bad(fn, fn.node, f"{label}: built from {what} the patch prints {got[diff] if diff is not None and isinstance(got, list) else got!r:.120} "
+                       f"where it was given {ops[diff] if diff is not None else ops!r:.120}", construct=f"list {k + 1}: asdicts() of the patch built from {what}")
+        results = []
+        for what, patch_obj in (("the JSON form", from_json), ("the builder calls", chained), ("its own asdicts() output", again), ("the JSON form, applied again", from_json)):
+            r = model.call(patch_obj, "apply", [_copy.deepcopy(doc)])
+            if r is UNKNOWN:
+                raise AnalysisError(f"R15.8: the result of applying {label} (built from {what}) cannot be determined")
+            if r is RAISES:
+                rr.bad(afn, afn.node, f"{label}: built from {what}, applying it raises {model.last_raised}", construct=f"list {k + 1}: apply raises ({what})")
+                continue
+            results.append(r)
+            if rfc6902.jeq(r, want):
+                rr.ok(afn.loc(), f"{label}: built from {what}, it has the defined effect")
+            else:
+                rr.bad(afn, afn.node, f"{label}: built from {what}, applying it gives {r!r:.140}; the operations define {want!r:.140}",
+                       construct=f"list {k + 1}: effect of the patch built from {what}")
+        after = model.call(from_json, "asdicts", [])
+        if after != ops:
+            rr.bad(afn, afn.node, f"{label}: after being applied the patch prints {after!r:.140}: applying it changed it", construct=f"list {k + 1}: the patch changes when applied")
+        elif not rfc6902.jeq(given, ops):
+            rr.bad(afn, afn.node, f"{label}: the caller's list of operations was changed", construct=f"list {k + 1}: the caller's list changes")
+        elif any(rfc6902.shares_structure(a, b) for i, a in enumerate(results) for b in results[i + 1:]) or any(rfc6902.shares_structure(given, r) for r in results):
+            rr.bad(afn, afn.node, f"{label}: two results of applying the patch (or a result and the patch) share an array or object: they are not independent",
+                   construct=f"list {k + 1}: results share structure")
+        else:
+            rr.ok(afn.loc(), f"{label}: the patch and the caller's list are unchanged, the results are independent")
+    return rr
+
+
+def rfc6902_known(v: object) -> bool:
+    from sa.peval import _foldable
+
+    return _foldable(v)
+
+
+RULES = [r15_1, r15_2, r15_3, r15_4, r15_5, r15_6, r15_7, r15_8]
